@@ -173,7 +173,7 @@ def single_file_source(lib: Lib, order: list[str], variants: dict[str, str] | No
 
 # ---- worlds --------------------------------------------------------------------------------------
 
-DIRS = ["/proj/SCRIPT", "/proj/SCRIPT/lib", "/proj/macros", "/proj/macros/sub", "/opt/shared", "/opt/shared/deep", "/opt/shared/deep/er", "/opt/shared/deep/er"]
+DIRS = ["/proj/macros/v:1", "/proj/SCRIPT", "/proj/SCRIPT/lib", "/proj/macros", "/proj/macros/sub", "/opt/shared", "/opt/shared/deep", "/opt/shared/deep/er", "/opt/shared/deep/er"]
 
 
 class World:
@@ -240,6 +240,8 @@ def gen_world(lib: Lib, rng: random.Random, knobs: dict | None = None) -> World:
         fidx[nm] = rng.randint(lo, nfiles - 1)
     # lookup paths: a subset of directories that contain macro files, absolute
     lookup_dirs = sorted({posixpath.dirname(p) for p in paths[1:]})
+    # sometimes the lookup path is the PARENT of the file's directory: the import is then spelled `dir/file`
+    lookup_dirs = sorted({(posixpath.dirname(d) if (rng.random() < 0.3 and d.count("/") > 1) else d) for d in lookup_dirs})
     rng.shuffle(lookup_dirs)
     w.lookup = lookup_dirs[: rng.randint(0, min(3, len(lookup_dirs)))]
     if k["symlinks"]:
